@@ -88,14 +88,16 @@ pub fn gen(o: &Opts, sink: &mut dyn FnMut(Vec<i64>, String)) {
         sink(c, String::new());
     }
     // timed histories: a wait past the transition timeout in one position
-    let nt = if o.tier_thorough { 600 } else { 32 };
+    let nt = if o.tier_thorough { 600 } else { 48 };
     for j in 0..nt {
         k += 1; if !mine(o, k) { continue; }
         let mut rng = Rng::new(o.seed, 8_500_000 + j);
         let mut c = vec![0x00, 0x27];
         let pre = 1 + rng.below(4); let post = 1 + rng.below(4);
-        for _ in 0..pre { let l = *rng.pick(&[1u64, 2, 5, 8, 9, 10, 10, 0]); letter(l, &mut rng, &mut c); }
-        c.extend([4, 2100]);
+        // (statuses of every class incl. a running engine before the silence; waits on both sides of
+        //  the 2000 ms transition timeout and long enough to outlive any sub-second staleness rule)
+        for _ in 0..pre { let l = *rng.pick(&[1u64, 2, 3, 4, 3, 5, 6, 8, 9, 10, 10, 0]); letter(l, &mut rng, &mut c); }
+        c.extend([4, *rng.pick(&[2100i64, 2100, 1200, 600])]);
         for _ in 0..post { let l = *rng.pick(&[0u64, 0, 2, 5, 1, 11]); letter(l, &mut rng, &mut c); }
         c.push(0);
         sink(c, String::new());
